@@ -157,6 +157,20 @@ def gen_history(w, rng, n):
                 ops.append(dict(kind="construct", e=e, fault=fk))
                 recent_fault_terms.append(inner)
             continue
+        if x < 0.22:
+            # constant folding with the same whole-number value reached once through integers and once through rationals
+            # (results must not depend on which fold a shared walker saw first)
+            n = rng.choice([1, 2, 3, 4, 6])
+            a_ = rng.randint(0, n)
+            base = w.numeric(1)
+            int_fold = rng.choice([["plus", ["i", a_], ["i", n - a_]], ["plus", base, ["i", a_], ["i", n - a_]], ["times", ["i", n], ["i", 1], ["i", 1]], ["minus", ["i", n + 2], ["i", 2]]])
+            rat_fold = rng.choice([["plus", ["r", f"{n}/2"], ["r", f"{n}/2"]], ["plus", base, ["r", f"{n}/2"], ["r", f"{n}/2"]], ["times", ["r", f"{n}/3"], ["i", 3]], ["div", ["r", f"{3 * n}/2"], ["r", "3/2"]], ["minus", ["r", f"{2 * n + 1}/2"], ["r", "1/2"]]])
+            pair = [dict(kind="simplify", e=int_fold, shared=False, fold="int"), dict(kind="simplify", e=rat_fold, shared=False, fold="rat")]
+            rng.shuffle(pair)
+            ops.extend(pair)
+            if rng.random() < 0.5:
+                ops.append(dict(kind="type", e=["plus", base, int_fold], shared=False, fold="int"))
+            continue
         # a normal call; often on something sharing sub-terms with a recently faulted expression
         shared = False
         if recent_fault_terms and rng.random() < 0.55:
@@ -300,6 +314,8 @@ def run_case(key, tier, res, q):
                 f"after call #{i} ({op['kind']}) walker {pend_a[0][0]} kept {pend_a[0][2]} pending stack entries",
             )
             return
+        if op.get("fold"):
+            res.count("constant_fold_pair_calls")
         if a[0] == "exc":
             faults_seen += 1
             res.count("faulted_calls")
@@ -327,7 +343,7 @@ def run_case(key, tier, res, q):
 def thresholds(m):
     c = m["counters"]
     out = []
-    for k, n in (("injected_faults", 30), ("faulted_calls", 200), ("successful_shared_calls_after_fault", 200), ("raising_walks_observed", 50), ("walks_observed", 5000)):
+    for k, n in (("constant_fold_pair_calls", 100), ("injected_faults", 30), ("faulted_calls", 200), ("successful_shared_calls_after_fault", 200), ("raising_walks_observed", 50), ("walks_observed", 5000)):
         if c.get(k, 0) < n:
             out.append(f"{k} observed {c.get(k, 0)} < {n}")
     for f in ("fault:subst-div0:ZeroDivisionError", "fault:simplify-boom:ValueError", "fault:construct-bad-eq:UPTypeError"):
